@@ -435,17 +435,17 @@ def Stage (S : Id → Prop) (self : Id) (m : M Unit) : Prop :=
     Agree S h1 (m.run h1).1 ∧ (∀ u, (m.run h1).2 = .ok u → Building S self (m.run h1).1)
 
 theorem set_other_rec (h : Heap) (i x : Id) (r : NodeRec) (hne : x ≠ i) : (h.set i r) x = h x := by
-  simp [Heap.set, hne]
+  simp [Heap.set_apply, hne]
 theorem setKids_other (h : Heap) (i x : Id) (v) (hne : x ≠ i) : (setKids h i v) x = h x := by
-  simp [setKids, Heap.set, hne]
+  simp [setKids, Heap.set_apply, hne]
 theorem setPrev_other (h : Heap) (i x : Id) (v) (hne : x ≠ i) : (setPrev h i v) x = h x := by
-  simp [setPrev, Heap.set, hne]
+  simp [setPrev, Heap.set_apply, hne]
 theorem setNext_other (h : Heap) (i x : Id) (v) (hne : x ≠ i) : (setNext h i v) x = h x := by
-  simp [setNext, Heap.set, hne]
+  simp [setNext, Heap.set_apply, hne]
 theorem setParent_other (h : Heap) (i x : Id) (v) (hne : x ≠ i) : (setParent h i v) x = h x := by
-  simp [setParent, Heap.set, hne]
+  simp [setParent, Heap.set_apply, hne]
 theorem setAttrs_other (h : Heap) (i x : Id) (v) (hne : x ≠ i) : (setAttrs h i v) x = h x := by
-  simp [setAttrs, Heap.set, hne]
+  simp [setAttrs, Heap.set_apply, hne]
 
 /-- appending a just-created node to the element under construction -/
 theorem appendNew_stage {S : Id → Prop} {self t : Id} (hS : S self) (hT : S t) (hne : t ≠ self) (k : Kind) :
